@@ -80,7 +80,8 @@ VerdictCirc ==
      Viol("CIRCLE_AT_LEAST_LARGEST_SEPARATION", Ge(Mul(Ev.D, Add(One, Dec(1, 9))), Ev.m))
 \cup Viol("CIRCLE_AT_MOST_CIRCUMSCRIBED", Le(Mul(Ev.D, Sqrt3), Mul(MulInt(Ev.m, 2), Add(One, Dec(1, 5)))))
 
-Verdict == CASE Ev.k = "ecl" -> VerdictEcl [] Ev.k = "hor" -> VerdictHor [] Ev.k = "gal" -> VerdictGal
+\* a conversion that raises for a well-typed direction (the driver logs k = "raise" with the function and the input)
+Verdict == CASE Ev.k = "raise" -> {"CONVERSION_TOTAL"} [] Ev.k = "ecl" -> VerdictEcl [] Ev.k = "hor" -> VerdictHor [] Ev.k = "gal" -> VerdictGal
              [] Ev.k = "sep" -> VerdictSep [] Ev.k = "pa" -> VerdictPa [] Ev.k = "circ" -> VerdictCirc [] OTHER -> {"UNKNOWN_KIND"}
 Init == TraceInit(0)
 Next == StepWith(Verdict, 0)
